@@ -9,7 +9,7 @@ check('C01',
       'io.extract_output on generated portfolios (monolithic and split) at box points and at the solver\'s x; the solver\'s x is '
       'checked against the model rows inside Coq; nodal sums of the real dispatch table are evaluated on every case.',
       TB + 'Structured assets are covered by the same rows (skip list) and exercised under C16.',
-      'Coq proof (induction over lists) + differential correspondence + in-Coq validation of solver output', 'DESIGN.md 5 C01')
+      'Coq proof (induction over lists) + differential correspondence + in-Coq validation of solver output', 'DESIGN.md 4 C01')
 check('C03',
       'The native solver cannot be proved. Proved for all problems: soundness of the executable checkers check_primal_eps, '
       'check_opt (weak duality with box bounds, sound for ANY multiplier vector), check_farkas. Every answer of optimize() on '
@@ -18,28 +18,28 @@ check('C03',
       '(LP), 0/1 flags, and infeasibility when failure is reported.',
       TB + 'Optimality of MIP answers is only certified for feasibility/integrality/value (no branch-and-bound certificate yet); '
       'results flagged inaccurate make no claim.',
-      'Coq-verified certificate checking (weak duality / Farkas) of every solver answer', 'DESIGN.md 5 C03')
+      'Coq-verified certificate checking (weak duality / Farkas) of every solver answer', 'DESIGN.md 4 C03')
 check('C04',
       'Theorem C04_value_accounting (all problems, mappings, points): for a well-formed mapping the DCF table sums to -c.x and each '
       'asset total is minus the cost of its own variables. Well-formedness is decided on the implementation\'s own (c, mapping) by '
       'the executable wf_mapb (proved sound), so the identity holds for every x of that problem; dcf_asset is compared with the DCF '
       'table of extract_output at box points; value / -c.x / table sums are evaluated on the real results (monolithic and split, '
       'periodic, coarse, order books).',
-      TB, 'Coq proof + per-instance well-formedness certificate + differential correspondence', 'DESIGN.md 5 C04')
+      TB, 'Coq proof + per-instance well-formedness certificate + differential correspondence', 'DESIGN.md 4 C04')
 check('C07',
       'Theorems about the assembly (any number of assets): vectors are the concatenation of the assets\' vectors, every mapping row '
       'points to the variable with the asset\'s own cost/bounds, the assembled mapping is well formed, exactly one nodal row per '
       '(node, step) with dispatch. The model assembly applied to the implementation\'s own stand-alone asset problems is compared '
       'with Portfolio.setup_optim_problem (c, l, u, rows, mapping, nodal record); wf_lp, l<=u, wf_map, unmapped-variable and '
       'uniqueness checks are evaluated in Coq on the implementation\'s problem.',
-      TB, 'Coq proof + compositional differential correspondence + executable well-formedness checks', 'DESIGN.md 5 C07')
+      TB, 'Coq proof + compositional differential correspondence + executable well-formedness checks', 'DESIGN.md 4 C07')
 check('C18',
       'Theorem C18_nodal_price (all problems): if check_opt accepts (x, y) with y_N = -price then for every injection d of either sign '
       'the re-optimised value is at most value + eps + price*d. Per instance the multipliers of the nodal rows are read from the '
       'price table of extract_output and check_opt is evaluated in Coq; additionally sampled injections are re-optimised through the '
       'implementation.',
       TB + 'LP portfolios only (the implementation reports no duals for MIPs).',
-      'Coq proof (right-hand-side sensitivity from weak duality) + per-instance dual certificate', 'DESIGN.md 5 C18')
+      'Coq proof (right-hand-side sensitivity from weak duality) + per-instance dual certificate', 'DESIGN.md 4 C18')
 check('C05',
       'Theorems C05_storage_physics / C05_level_rows (every storage, any number of steps of any length, inflow, efficiency, one or two '
       'nodes, window): every feasible point of the problem the model builder returns keeps the physical level in [0,size], ends at '
@@ -49,7 +49,7 @@ check('C05',
       'reported fill level / charge / discharge, exclusivity and holding duration are recomputed from the returned x.',
       TB + 'Time blocks are not modelled as rows (implementation oracle only); max_store_duration with non-zero start/end level or '
       'inflow and block_size with inflow or start != end level are known findings of the unchanged tree.',
-      'Coq proof (cumulative-sum rows => level bounds) + differential correspondence + implementation oracle', 'DESIGN.md 5 C05')
+      'Coq proof (cumulative-sum rows => level bounds) + differential correspondence + implementation oracle', 'DESIGN.md 4 C05')
 check('C19',
       'Theorems on the grid model (any points): dt = elapsed time / unit, dt > 0 for increasing points, Dt = prefix sums, restricted '
       'grid = index-consistent subset of [s,e) in order with the sub-arrays, coarse groups cover every fine step of a spanned window '
@@ -58,7 +58,7 @@ check('C19',
       'and anchored-frequency grids in four zones; the calendar hypotheses (strictly increasing, first point = start, before end) and '
       'price pass-through are evaluated on the implementation on every case.',
       TB + 'pd.date_range / tz database are the calendar oracle (evaluated independently in harness/modelspec.py).',
-      'Coq proof + differential correspondence + hypothesis checks on the implementation', 'DESIGN.md 5 C19')
+      'Coq proof + differential correspondence + hypothesis checks on the implementation', 'DESIGN.md 4 C19')
 check('C08',
       'Theorems (any grid, any asset list): the restricted grid is exactly the set of horizon steps in [start,end); a window missing the '
       'horizon selects nothing; an empty asset problem anywhere in the asset list leaves the whole portfolio problem unchanged; a take '
@@ -69,7 +69,7 @@ check('C08',
       'outside asset / order / order book / take period and the two problems are compared structurally (costs, bounds, rows, mapping, '
       'value), dispatch outside each asset window is checked at box points and optima, and take rows are recomputed independently.',
       TB + 'Assets with a coarser frequency are excluded from the window oracle (their windows are the subject of the C19 known finding).',
-      'Coq proof + differential correspondence + metamorphic implementation oracle (with/without outside element)', 'DESIGN.md 5 C08')
+      'Coq proof + differential correspondence + metamorphic implementation oracle (with/without outside element)', 'DESIGN.md 4 C08')
 check('C20',
       'Theorems about the order-book problem (any number of orders, any grid): every feasible point executes each order at a fraction in '
       '[0,1]; the reported dispatch at a step is the sum over orders covering it of fraction x capacity x step length; the cost of an '
@@ -79,7 +79,7 @@ check('C20',
       'flow are recomputed from the output tables and the calendar, and the optimum is compared with an independently written '
       'formulation (one execution variable per order, harness/ref.py, HiGHS) in which EAO\'s dispatch must be feasible.',
       TB + 'The independent formulation is supporting evidence and the failing-input search, not a proof.',
-      'Coq proof + differential correspondence + implementation oracle + independent reference formulation', 'DESIGN.md 5 C20')
+      'Coq proof + differential correspondence + implementation oracle + independent reference formulation', 'DESIGN.md 4 C20')
 check('C02',
       'PARTIAL proof. Proved for all inputs and sizes (Props/C02.v): the in/out split of a contract step represents exactly the flows in '
       '[min,max] and costs price x flow + spread x |flow| whenever one side is zero and never less; per-step limits are rate x step '
@@ -92,7 +92,7 @@ check('C02',
       'compared with the optimum of an independently written textbook LP (harness/ref.py, HiGHS) in which EAO\'s returned dispatch '
       'must be feasible.',
       TB + 'The independent formulation is supporting evidence and the failing-input search, not a proof; its own correctness is trusted.',
-      'Coq proof (building blocks, partial) + differential correspondence + independent reference LP per instance', 'DESIGN.md 5 C02')
+      'Coq proof (building blocks, partial) + differential correspondence + independent reference LP per instance', 'DESIGN.md 4 C02')
 check('C15',
       'Theorems (any problem, any mapping with any number of rows per variable, any window, any previous point): exactly the variables '
       'having a mapping row at a step of the window get l = u = previous value, every other bound, the costs, rows and mapping are '
@@ -103,7 +103,7 @@ check('C15',
       'structured assets); on the implementation the pinned set is recomputed from the mapping, and the problem is re-optimised with '
       'unchanged prices (value and window values unchanged) and with changed prices (window values unchanged, other bounds free).',
       TB + 'A date window means all steps whose time point is not after the date (the behaviour of the unchanged tree).',
-      'Coq proof + differential correspondence + implementation oracle (re-optimisation)', 'DESIGN.md 5 C15')
+      'Coq proof + differential correspondence + implementation oracle (re-optimisation)', 'DESIGN.md 4 C15')
 check('C14',
       'Theorems (any number of intervals of any size): the interval problems form a direct sum, the concatenation of interval optima is '
       'optimal for it and its value is the sum of the interval optima; the whole is feasible iff every interval is; the re-based '
@@ -117,7 +117,7 @@ check('C14',
       TB + 'That the unsplit problem of an uncoupled portfolio is this direct sum up to variable order is checked structurally per '
       'instance, not proved. Order books, scaled and structured assets are excluded from the comparison with the unsplit problem '
       '(their variables are duplicated per interval); coarse-frequency and periodic assets are not combined with splitting.',
-      'Coq proof (direct sum) + per-instance certificates in Coq + implementation oracle', 'DESIGN.md 5 C14')
+      'Coq proof (direct sum) + per-instance certificates in Coq + implementation oracle', 'DESIGN.md 4 C14')
 check('C09',
       'Theorems (any portfolio): under any renaming of assets, nodes (injective) and variable names the assembled problem (costs, '
       'bounds, asset rows, nodal rows) is literally unchanged and the mapping is the relabelled mapping; dispatch and cash flows of '
@@ -129,7 +129,7 @@ check('C09',
       'in Coq with Rename.rename_map of its base mapping (the hypothesis of the equivariance theorems).',
       TB + 'For a permuted asset list only value, status and per-asset blocks are compared (optimal dispatch need not be unique); the '
       'general statement for permutations with nodal coupling is checked per instance, the theorem covers block swaps of direct sums.',
-      'Coq proof (equivariance) + differential correspondence + metamorphic implementation oracle', 'DESIGN.md 5 C09')
+      'Coq proof (equivariance) + differential correspondence + metamorphic implementation oracle', 'DESIGN.md 4 C09')
 check('C12',
       'Theorems (any grid points, hence any step lengths, any positive unit factor k): step lengths in a unit k times as long are the old '
       'ones divided by k; a rate multiplied by k gives the same per-step limit / cost; a duration divided by k compares with the step '
@@ -143,7 +143,7 @@ check('C12',
       TB + 'Durations are generated strictly between step boundaries: a comparison sitting exactly on a boundary may flip by floating-point '
       'rounding when the duration is divided by 24 or 60, which is outside the exact model. Plant / CHP ramps and run times are '
       'covered under C06.',
-      'Coq proof + metamorphic implementation oracle (unit change) + differential correspondence', 'DESIGN.md 5 C12')
+      'Coq proof + metamorphic implementation oracle (unit change) + differential correspondence', 'DESIGN.md 4 C12')
 check('C13',
       'Theorems (any problem, any leader map, any merged point): a merged point stands for the fine point in which every variable '
       'carries the value of its group leader; that point satisfies the equalities; merged rows evaluate on it exactly as the fine rows '
@@ -158,7 +158,7 @@ check('C13',
       'daily periods within anchored weeks.',
       TB + 'Claim domain: coarse assets with constant limits and no take periods, merged assets without holding cost and discounting '
       '(the documented averaging covers limits and prices only).',
-      'Coq proof (merge as value-preserving substitution) + differential correspondence + independent reference LP', 'DESIGN.md 5 C13')
+      'Coq proof (merge as value-preserving substitution) + differential correspondence + independent reference LP', 'DESIGN.md 4 C13')
 check('C16',
       'Theorem C16_scaled_fixed_equiv (every base problem whose variables are all dispatch variables, any sizes, S > 0, 0 <= s in '
       '[min,max]): (x, s) is feasible for the scaled problem iff x is feasible for the base problem with all bounds and right-hand '
@@ -173,7 +173,7 @@ check('C16',
       TB + 'Base assets with binary or other internal variables are rejected by the code and by the model (C16_scaled_bool_partial). '
       'For structured assets inside larger portfolios the equivalence is checked per instance (values), the theorem covers the '
       'portfolio consisting of the structured asset.',
-      'Coq proof + differential correspondence + metamorphic implementation oracle', 'DESIGN.md 5 C16')
+      'Coq proof + differential correspondence + metamorphic implementation oracle', 'DESIGN.md 4 C16')
 check('C17',
       'Theorems: for every problem, future mask, sample costs and extended point the rows of scenario i of the extended problem '
       'evaluate exactly as the original rows on (present of the point + future block i), i.e. the scenarios share the present '
@@ -188,7 +188,7 @@ check('C17',
       'without grid argument) against every scenario solution and the scenario optima.',
       TB + 'That the bounds and scaled costs of the extended problem realise the two-stage reading is checked by correspondence, not '
       'proved (index arithmetic of the duplicated future block).',
-      'Coq proof (two-stage / epigraph bounds, row structure) + differential correspondence + implementation oracle', 'DESIGN.md 5 C17')
+      'Coq proof (two-stage / epigraph bounds, row structure) + differential correspondence + implementation oracle', 'DESIGN.md 4 C17')
 check('C10',
       'Theorem C10_portfolio_is_pure (Purity.v): in the state machine of the state the code really mutates - the grid reference of every '
       'asset and the restricted grid / discount factors cached on the shared grid object - every problem built along EVERY sequence of '
@@ -201,7 +201,7 @@ check('C10',
       TB + 'Only the state enumerated in Purity.v is modelled; a new hidden cache in the Python would show as a difference in the '
       'sequence runs, not in the theorem. After a set-up that raised, only set-ups that are handed their grid are compared. '
       'set_timegrid on a wrapper (scaled / structured asset) does not reach the wrapped assets and is not compared.',
-      'Coq proof (state machine invariant over all operation sequences) + operation-sequence differential check on the implementation', 'DESIGN.md 5 C10')
+      'Coq proof (state machine invariant over all operation sequences) + operation-sequence differential check on the implementation', 'DESIGN.md 4 C10')
 check('C11',
       'The model is REGENERATED from /repo on every run: harness/classtable.py walks eaopack with ast and emits coq/ClassTable.v (per '
       'class: constructor keywords incl. **kwargs forwarding, parameters without default, every attribute any method assigns to self, '
@@ -216,7 +216,7 @@ check('C11',
       TB + 'The translator is trusted to read the sources correctly (fails closed on constructs it does not interpret: recorded as '
       'c_problems and make the class not loadable). The JSON text layer and float repr round trip are trusted. A value-level codec '
       'theorem is not part of this check.',
-      'Coq proof over a model generated from the source (ast translator) + round-trip oracle on the implementation', 'DESIGN.md 5 C11')
+      'Coq proof over a model generated from the source (ast translator) + round-trip oracle on the implementation', 'DESIGN.md 4 C11')
 check('C06',
       'PARTIAL proof. Proved for any number of steps and any durations (Props/C06.v, rows as Plant.v emits them, row shapes proved): the '
       'on/off patterns admitting start flags that satisfy the start and run-time rows are EXACTLY those in which every run begun inside '
@@ -234,4 +234,4 @@ check('C06',
       TB + 'Not proved and not modelled: start / shutdown ramp PROFILES (their rows are exercised by the repository tests only); the '
       'link between the abstract row inequalities and the list of rows Plant.v emits is by the row-shape lemmas and the correspondence '
       'run, not one theorem about the builder. Durations are converted to steps by the documented rounding up (harness side).',
-      'Coq proof (run-length characterisation of the rows, partial) + differential correspondence + pattern enumeration on the implementation', 'DESIGN.md 5 C06')
+      'Coq proof (run-length characterisation of the rows, partial) + differential correspondence + pattern enumeration on the implementation', 'DESIGN.md 4 C06')
